@@ -248,6 +248,13 @@ func (p *Path) vpIntrinsic(caller *frame, fn *ssa.Function, name string, args []
 			return Struct{p.xfScaled(*t.X, int(t.Format[2]-'0'))}
 		}
 		p.abortf("vp_TokScaled: unsupported format %q", t.Format)
+	case "vp_ChanSlack":
+		// models consumers that drain later: every channel accepts n more sends than its capacity
+		p.chanSlack = int(p.intArg(args[0], "slack"))
+		return nil
+	case "vp_Inconclusive":
+		p.abortf("harness: %s", p.strArg(args[0], "reason"))
+		return nil
 	case "vp_Stub":
 		// vp_Stub("full name of real function", replacement)
 		target := p.strArg(args[0], "target")
